@@ -165,7 +165,13 @@ def make_twin(path, func):
     return out
 
 
+MIN_TIMEOUT = int(os.environ.get("VERIF_MIN_TIMEOUT", "900"))  # a slow host must not turn a decided obligation into "inconclusive"
+
+
 def run_crosshair(path, func, params, timeout, path_timeout=None):
+    timeout = max(timeout, MIN_TIMEOUT)
+    if path_timeout is not None:
+        path_timeout = max(path_timeout, MIN_TIMEOUT)
     line, _ = function_line(path, func)
     cmd = [
         PY, "-B", "-m", "crosshair", "check", "--report_all", "--analysis_kind", "PEP316",
